@@ -115,27 +115,81 @@ func (m *Machine) EnumerableOwnEntries(o *Object) ([]Entry, *Throw) {
 	return out, nil
 }
 
-// ForInKeys is the key sequence of a for-in loop whose body does not mutate anything (§14.7.5.10.2.1
-// %ForInIteratorPrototype%.next): per object on the chain its own string keys in [[OwnPropertyKeys]] order, a key
-// is visited once (shadowing counts even when the shadowing property is not enumerable), only enumerable ones are
-// produced.
-func (m *Machine) ForInKeys(o *Object) []Key {
-	visited := map[Key]bool{}
-	var out []Key
-	for ; o != nil; o = o.Proto {
-		for _, k := range m.OwnPropertyKeys(o) {
-			if k.IsSymbol() || visited[k] {
+// ForInIterator is a For-In Iterator (§14.7.5.10): per object on the prototype chain the own keys are snapshotted
+// when the object is first reached; each key is looked up again when it is its turn (a key deleted meanwhile is
+// skipped, a key added meanwhile is not visited on that object), a key is visited once along the chain (shadowing
+// counts even when the shadowing property is not enumerable), only enumerable string keys are produced.
+type ForInIterator struct {
+	m         *Machine
+	o         *Object
+	reached   bool
+	visited   map[Key]bool
+	remaining []Key
+}
+
+func (m *Machine) NewForIn(o *Object) *ForInIterator {
+	return &ForInIterator{m: m, o: o, visited: map[Key]bool{}}
+}
+
+// Next is %ForInIteratorPrototype%.next (§14.7.5.10.2.1); ok=false when the iteration is done.
+func (it *ForInIterator) Next() (Key, bool) {
+	for it.o != nil {
+		if !it.reached {
+			for _, k := range it.m.OwnPropertyKeys(it.o) {
+				if !k.IsSymbol() {
+					it.remaining = append(it.remaining, k)
+				}
+			}
+			it.reached = true
+		}
+		for len(it.remaining) > 0 {
+			r := it.remaining[0]
+			it.remaining = it.remaining[1:]
+			if it.visited[r] {
 				continue
 			}
-			d := m.GetOwnProperty(o, k)
+			d := it.m.GetOwnProperty(it.o, r)
 			if d == nil {
 				continue
 			}
-			visited[k] = true
+			it.visited[r] = true
 			if d.E {
-				out = append(out, k)
+				return r, true
 			}
 		}
+		it.o = it.m.GetPrototypeOf(it.o)
+		it.reached = false
+	}
+	return Key{}, false
+}
+
+// ForInKeys is the key sequence of a for-in loop whose body does not mutate anything.
+func (m *Machine) ForInKeys(o *Object) []Key {
+	var out []Key
+	it := m.NewForIn(o)
+	for k, ok := it.Next(); ok; k, ok = it.Next() {
+		out = append(out, k)
 	}
 	return out
+}
+
+// CopyEnumerableOwn is the common loop of Object.assign (§20.1.2.1 step 3.a), CopyDataProperties (§7.3.26, object
+// spread) and EnumerableOwnProperties (§7.3.23): the own keys are snapshotted first, then each key is looked up
+// again ([[GetOwnProperty]]) and, when still present and enumerable, read with [[Get]] (getters run and may mutate
+// the source).  stringsOnly drops symbol keys (Object.entries).
+func (m *Machine) CopyEnumerableOwn(from *Object, stringsOnly bool) ([]Entry, *Throw) {
+	var out []Entry
+	for _, k := range m.OwnPropertyKeys(from) {
+		if stringsOnly && k.IsSymbol() {
+			continue
+		}
+		if d := m.GetOwnProperty(from, k); d != nil && d.E {
+			v, thr := m.Get(from, k, ObjV(from))
+			if thr != nil {
+				return out, thr
+			}
+			out = append(out, Entry{k, v})
+		}
+	}
+	return out, nil
 }
